@@ -46,6 +46,8 @@ Proof.
   - eexists _, _. split; [reflexivity|]. split; [reflexivity|]. split; [reflexivity|]. apply opMload_ok.
   - eexists _, _. split; [reflexivity|]. split; [reflexivity|]. split; [reflexivity|]. apply opMstore_ok.
   - eexists _, _. split; [reflexivity|]. split; [reflexivity|]. split; [reflexivity|]. apply opMstore8_ok.
+  - eexists _, _. split; [reflexivity|]. split; [reflexivity|]. split; [reflexivity|]. apply opSload_ok.
+  - eexists _, _. split; [reflexivity|]. split; [reflexivity|]. split; [reflexivity|]. apply opSstore_ok.
   - eexists _, _. split; [reflexivity|]. split; [reflexivity|]. split; [reflexivity|]. apply opMsize_ok.
   - intros op H. enum256 op; reflexivity.
   - intros op H. enum256 op; reflexivity.
@@ -66,6 +68,10 @@ Definition recorded_fingerprints : list (string * string) :=
    ("common/math/big.go:Exp", "348b3cf7f243059a");
    ("common/math/big.go:ReadBits", "a40f8e97e1f1df57");
    ("common/math/big.go:bigEndianByteAt", "e74fcdc87838e813");
+   ("common/types.go:BigToHash", "d26cff768f7341d9");
+   ("common/types.go:BytesToHash", "130603172f582dfa");
+   ("common/types.go:Hash.Bytes", "f9b540477c3af900");
+   ("common/types.go:Hash.SetBytes", "0e9fd9f962e19e29");
    ("core/vm/common.go:bigUint64", "17d417e54e2ad7df");
    ("core/vm/common.go:calcMemSize", "7d7b7d3bb7fe3d1f");
    ("core/vm/common.go:toWordSize", "83a54477a3ff1403");
@@ -73,6 +79,7 @@ Definition recorded_fingerprints : list (string * string) :=
    ("core/vm/contract.go:Contract.GetOp", "cfebe41ee81ac058");
    ("core/vm/contract.go:Contract.UseGas", "7c08d8f54e3709b6");
    ("core/vm/gas_table.go:gasExp", "816405f51b0823c9");
+   ("core/vm/gas_table.go:gasSStoreEIP2200", "c3197f8d02744610");
    ("core/vm/gas_table.go:memoryGasCost", "66df6796ef6e663f");
    ("core/vm/gas_table.go:pureMemoryGascost", "20441ee93783e555");
    ("core/vm/instructions.go:makeDup", "9a38e772db08d6e1");
